@@ -220,6 +220,46 @@ def run(ctx):
             and st.value.args and is_name(st.value.args[0], idv)]
     ctx.check('R2', 'the context is looked up by the id sent by the client', bool(look), 'RemoteServer.run', 'context-lookup-key', 'the context is not looked up by the client-supplied id', where=loc(f, f.node))
 
+    # ---------------------------------------------------------------- R2 the id sentinel
+    # None is the protocol's only "no context" value: any other id the user chose (0, '', False, ()) is a context.  Every name that denotes the
+    # id - the attribute sent as the first element of a request header, the constructor parameters stored into it, the server's unpacked local -
+    # is therefore tested against None, never for its truth value.
+    from ..astutil import truth_tested
+    n_sites = 0
+    id_tests = 0
+    scopes = []
+    for cname in ('RemoteWorker', 'RemoteContext'):
+        c0 = P.cls(cname)
+        attrs = set()
+        for fn in c0.methods.values():
+            for c in calls_in(fn.node):
+                if last_attr(c) == 'send_msg' and len(c.args) >= 2 and isinstance(c.args[1], ast.Tuple) and len(c.args[1].elts) == 2 and \
+                        isinstance(c.args[1].elts[1], ast.Constant) and isinstance(c.args[1].elts[1].value, bool) and is_self_attr(c.args[1].elts[0]):
+                    attrs.add(c.args[1].elts[0].attr)
+        ctx.require(attrs, f'{cname}: the request header (id, flag) was not found')
+        for c1 in [c0] + [x for x in P.classes.values() if not isinstance(x, str) and c0 in [m for m in x.mro() if not isinstance(m, str)] and x is not c0]:
+            for fn in c1.methods.values():
+                names = {f'self.{a}' for a in attrs}
+                for st in walk_local(fn.node):
+                    if isinstance(st, ast.Assign) and any(is_self_attr(t, a) for t in st.targets for a in attrs):
+                        names |= {x.id for x in ast.walk(st.value) if isinstance(x, ast.Name) and x.id in set(fn.params) | set(fn.kwonly)}
+                scopes.append((fn, names))
+    scopes.append((f, {idv}))
+    for fn, names in scopes:
+        ctx.used(fn)
+        for n in walk_local(fn.node):
+            if isinstance(n, ast.Compare) and len(n.ops) == 1 and isinstance(n.ops[0], (ast.Is, ast.IsNot)) and norm(n.left) in names:
+                id_tests += 1
+        for leaf, st in truth_tested(fn.node):
+            if norm(leaf) in names:
+                n_sites += 1
+                ctx.check('R2', f'{fn.short}: the context id is compared with None, not tested for truth', False, fn.short, f'context-id-tested-by-truth:{norm(leaf)}',
+                          f'`{short(st) if st is not None else norm(leaf)}` tests the context id `{norm(leaf)}` for its truth value: None is the only "no context" value of the protocol, so a context '
+                          'whose id is 0, an empty string or False is treated as no context here and as a context everywhere else (its workers are never started, or run without '
+                          'the context\'s target)', where=loc(fn, leaf))
+    ctx.ob('R2', f'no name denoting the context id is tested for truth ({id_tests} None tests, {len(scopes)} functions)', n_sites == 0)
+    ctx.floor('None tests of the context id', id_tests, 3)
+
     # ---------------------------------------------------------------- R4 client side
     ini = RC.methods['__init__']
 
